@@ -133,9 +133,13 @@ func c01Run(r *zsim.Run) {
 				if r.Failed() {
 					return
 				}
+				nilPanic := false
 				outcome := zsim.Pick(o, 0, 1, 2, 2, 2, 3, 4) // 0 nil 1 acceptable error 2 unacceptable 3 panic 4 nil error that the caller's predicate rejects (a 5xx response)
 				dur := time.Duration(zsim.Pick(o, 0, 0, 1, 30, 400)) * time.Millisecond
 				api := o.Intn(6)
+				if outcome == 3 {
+					nilPanic = o.Intn(3) == 0
+				}
 				if outcome == 4 && api != 1 && api != 3 {
 					outcome = 0 // only the WithAcceptable forms take a predicate
 				}
@@ -171,6 +175,12 @@ func c01Run(r *zsim.Run) {
 						return nil
 					}
 					br.marks = append(br.marks, m)
+					if nilPanic {
+						// a panic is a panic whatever its value: under the module's language version (go 1.19)
+						// recover() hands back nil for this one
+						var none any
+						panic(none)
+					}
 					panic("protected-function-panic")
 				}
 				// the predicate is the caller's: this call's rejects a nil error (e.g. it looks at the response as well)
@@ -221,7 +231,12 @@ func c01Run(r *zsim.Run) {
 					}
 				} else {
 					func() {
-						defer func() { panicked = recover() }()
+						returned := false
+						defer func() {
+							if panicked = recover(); panicked == nil && !returned {
+								panicked = "panic-with-nil-value"
+							}
+						}()
 						switch api {
 						case 0:
 							if viaRegistry {
@@ -250,6 +265,7 @@ func c01Run(r *zsim.Run) {
 						default:
 							err = br.b.Do(req)
 						}
+						returned = true
 					}()
 					if m != nil {
 						m.ret = r.Seq()
